@@ -76,10 +76,48 @@ Definition widen (k : Z) (i : I.type) : I.type :=
 Lemma widen_correct k i x : contains (I.convert i) x -> contains (I.convert (widen k i)) x.
 Proof. intros H. unfold widen. apply I.join_correct. left. apply I.join_correct. left. exact H. Qed.
 
+(* Interval's tan only covers enclosures inside (-pi/2, pi/2): use the period pi *)
+Definition itan (i : I.type) : I.type :=
+  match I.tan prec i with
+  | Float.Inan =>
+    match I.tan prec (I.sub prec i (I.pi prec)) with
+    | Float.Inan => I.tan prec (I.add prec i (I.pi prec))
+    | r => r
+    end
+  | r => r
+  end.
+
+Lemma Xtan_shift x k : (k = PI \/ k = - PI)%R -> Xtan (Xadd x (Xreal k)) = Xtan x.
+Proof.
+  intros Hk. destruct x as [|r]; [reflexivity|]. cbn [Xadd Xbind]. unfold Xtan'.
+  assert (C : cos (r + k) = (- cos r)%R /\ sin (r + k) = (- sin r)%R).
+  { destruct Hk as [->| ->].
+    - split; [apply neg_cos|apply neg_sin].
+    - pose proof (neg_cos (r + - PI)) as A. pose proof (neg_sin (r + - PI)) as B.
+      replace (r + - PI + PI)%R with r in A, B by ring. split; lra. }
+  destruct C as [C1 C2]. unfold is_zero. unfold tan. rewrite C1, C2.
+  destruct (Req_dec (cos r) 0) as [Z|NZ].
+  - rewrite !Raux.Req_bool_true by lra. reflexivity.
+  - rewrite !Raux.Req_bool_false by lra. f_equal. field. exact NZ.
+Qed.
+
+Lemma itan_correct : I.extension Xtan itan.
+Proof.
+  intros i x H. unfold itan.
+  destruct (I.tan prec i) eqn:E1.
+  - destruct (I.tan prec (I.sub prec i (I.pi prec))) eqn:E2.
+    + rewrite <- (Xtan_shift x PI) by auto. apply I.tan_correct.
+      apply I.add_correct; [exact H|apply I.pi_correct].
+    + rewrite <- E2. rewrite <- (Xtan_shift x (- PI)) by auto. apply I.tan_correct.
+      replace (Xadd x (Xreal (- PI))) with (Xsub x (Xreal PI)) by (destruct x; reflexivity).
+      apply I.sub_correct; [exact H|apply I.pi_correct].
+  - rewrite <- E1. now apply I.tan_correct.
+Qed.
+
 Definition iun (o : uop) : I.type -> I.type :=
   match o with
   | Neg => I.neg | Abs => I.abs | Sqrt => I.sqrt prec | Exp => I.exp prec | Ln => I.ln prec
-  | Tan => I.tan prec | Atan => I.atan prec | Floor => I.nearbyint rnd_DN | Sqr => I.sqr prec
+  | Tan => itan | Atan => I.atan prec | Floor => I.nearbyint rnd_DN | Sqr => I.sqr prec
   | Ln1p => fun i => I.ln prec (I.add prec (I.fromZ prec 1) i)
   | Expm1 => fun i => I.sub prec (I.exp prec i) (I.fromZ prec 1)
   | Id => fun i => i
@@ -108,7 +146,7 @@ Fixpoint evalI (w : bool) (e : expr) : I.type :=
 Lemma iun_correct o : I.extension (xun o) (iun o).
 Proof. destruct o; cbn [xun iun].
   - apply I.neg_correct. - apply I.abs_correct. - apply I.sqrt_correct. - apply I.exp_correct.
-  - apply I.ln_correct. - apply I.tan_correct. - apply I.atan_correct. - apply I.nearbyint_correct.
+  - apply I.ln_correct. - apply itan_correct. - apply I.atan_correct. - apply I.nearbyint_correct.
   - apply I.sqr_correct.
   - intros b x H. apply I.ln_correct. apply I.add_correct; [apply I.fromZ_correct|exact H].
   - intros b x H. apply I.sub_correct; [apply I.exp_correct; exact H|apply I.fromZ_correct].
